@@ -20,6 +20,11 @@ Decidable parts of the property (accuracy on general doubles is outside TLA+, DE
             row of the recorded table (AnnexGCheck.tla), incl. "identical for value and reference closures".
       Extreme-divisor clause: TLC enumerates the cases (powers of two, exact quotient), the harness evaluates
       them, TLC validates sign/exponent/mantissa limbs.
+ E. ComplexAcc.tla (L1, round 3): the first clause on GENERAL finite, well-scaled operands.  Operands are dyadic rationals, so the
+    exact sum / product / (multiplied through) quotient are integers; TLC decides  |computed - exact| <= k u |exact|  with exact
+    integer arithmetic on base-4096 limb vectors (+ - componentwise 2u, * / normwise 16u, real operand componentwise 16u), bit-identity
+    of the variants that use the same algorithm (value / T& / const T& closures, binary / compound), and - advisory - the signs
+    of zero results where IEEE 754 on the components pins them.  Cases: a TLC-enumerated boundary grid + seeded random operands.
 """
 import json, os, random, re, subprocess
 from concurrent.futures import ThreadPoolExecutor
@@ -357,9 +362,9 @@ def build_each(ctx, jobs):
 
 
 def harness_jobs(ctx, thorough):
-    """driver parts (1: Annex G tables, 2: exact arithmetic, 3: functions) and one machine binary per (T, B)."""
+    """driver parts (1: Annex G tables, 2: exact arithmetic, 3: functions, 4: accuracy on general operands) and one machine binary per (T, B)."""
     drv = os.path.join(HDIR, "driver.cpp")
-    jobs = [{"name": "driver%d" % k, "src": drv, "out": os.path.join(ctx.work, "driver%d" % k), "flags": ["-DDRV_PART=%d" % k]} for k in (1, 2, 3)]
+    jobs = [{"name": "driver%d" % k, "src": drv, "out": os.path.join(ctx.work, "driver%d" % k), "flags": ["-DDRV_PART=%d" % k]} for k in (1, 2, 3, 4)]
     for i in range(len(CFGS) if thorough else 4):
         # -O0: faster to compile; small integers are exact at any level
         jobs.append({"name": "machine%d" % i, "src": os.path.join(HDIR, "machine.cpp"), "out": os.path.join(ctx.work, "machine%d" % i),
@@ -589,6 +594,170 @@ def describe_fn(b):
         "; ".join("closure kinds %s got %s expected %s" % (x["v"], x["got"], x["exp"]) for x in b["fails"])[:1500])
 
 
+# ------------------------------------------------------------------ part E: accuracy on general finite operands (ComplexAcc.tla)
+ACC_PREC = {"float": 24, "double": 53, "ldouble": 64}
+ACC_W = {"float": 30, "double": 250}
+ACC_FORMS = ["add", "sub", "mul", "div", "adds", "subs", "muls", "divs", "sadd", "ssub", "smul", "sdiv"]
+ACC_STS = ["T", "int", "long", "float", "double", "ldouble"]
+
+
+def acc_num(sign, N, e):
+    """(-1)^sign * N * 2^e in the canonical form of ComplexAcc.tla (N odd, base-4096 limbs, least significant first)"""
+    if N == 0:
+        return {"k": "zero", "s": sign, "n": [0], "e": 0}
+    while N % 2 == 0:
+        N //= 2
+        e += 1
+    limbs = []
+    while N:
+        limbs.append(N % 4096)
+        N //= 4096
+    return {"k": "num", "s": sign, "n": limbs, "e": e}
+
+
+def acc_random_cases(seed, n):
+    """seeded random finite, well-scaled operands: random and boundary significands of full width, exponents anywhere in the
+    well-scaled range, component offsets from 0 to beyond the precision, zeros of both signs, nearly cancelling products"""
+    rnd = random.Random(seed * 7919 + 101)
+
+    def sig(p):
+        k = rnd.random()
+        if k < 0.5:
+            return rnd.getrandbits(p - 1) | (1 << (p - 1)) | rnd.getrandbits(1)
+        return rnd.choice([1 << (p - 1), (1 << (p - 1)) + 1, (1 << p) - 1, (1 << p) - 2, 3 << (p - 2), (3 << (p - 2)) + 1,
+                           int(((1 << p) - 1) * 2 / 3) | (1 << (p - 1)), (1 << (p - 1)) + (1 << (p // 2))])
+
+    W = [0]
+
+    def number(p, E, allow_zero=True):
+        if allow_zero and rnd.random() < 0.12:
+            return acc_num(rnd.getrandbits(1), 0, 0)
+        E = max(-W[0], min(W[0], E))
+        return acc_num(rnd.getrandbits(1), sig(p), E - (p - 1))          # leading bit 2^E, inside the well-scaled range
+
+    out = []
+    for i in range(n):
+        t = rnd.choice(["float", "double"])
+        p = ACC_PREC[t]
+        W[0] = ACC_W[t]
+        f = ACC_FORMS[i % len(ACC_FORMS)]
+        E = rnd.randint(-W[0], W[0])
+        off = lambda: max(-32, min(32, rnd.choice([0, 0, 0, 0, 1, -1, 2, -3, 7, -(p + 1), p + 1, -12, 23, -30, 31, rnd.randint(-32, 32)])))
+        x = [number(p, E + off()), number(p, E + off())]
+        st = "T"
+        if f in ("add", "sub", "mul", "div"):
+            if rnd.random() < 0.15 and x[0]["k"] == "num" and x[1]["k"] == "num":
+                # the transposed operand with the last bits changed: the real part of the product nearly cancels
+                def perturb(d):
+                    N = sum(l << (12 * j) for j, l in enumerate(d["n"]))
+                    sh = p - N.bit_length()
+                    return acc_num(d["s"], ((N << sh) ^ rnd.choice([1, 2, 3])) | (1 << (p - 1)), d["e"] - sh)
+                y = [perturb(x[1]), perturb(x[0])]
+            else:
+                y = [number(p, E + off()), number(p, E + off())]
+            if f == "div" and y[0]["k"] == "zero" and y[1]["k"] == "zero":
+                y[0] = number(p, E, False)
+        else:
+            st = rnd.choice(ACC_STS)
+            if st == "float" and t == "double":                           # the scalar must be a normal float too
+                E = rnd.randint(-90, 90)
+                x = [number(p, E + off()), number(p, E + off())]
+            if st in ("int", "long"):
+                v = rnd.choice([1, 2, 3, 5, 7, 10, 100, 255, 4097, 12345, rnd.randint(1, 30000)])
+                sc = acc_num(rnd.getrandbits(1), v, 0)
+                E = rnd.randint(-20, 30)                                  # keep the operands within the window of the integer
+                x = [number(p, E + rnd.choice([0, 1, -2, 5])), number(p, E + rnd.choice([0, -1, 3, -6]))]
+            else:
+                ps = min(p, ACC_PREC[t if st == "T" else st])              # a value of the scalar's type and of the element type
+                sc = number(ps, E + off(), allow_zero=(f not in ("divs",)))
+            if f == "sdiv" and x[0]["k"] == "zero" and x[1]["k"] == "zero":
+                x[1] = number(p, E, False)
+            y = [sc, acc_num(0, 0, 0)]
+        out.append({"t": t, "b": bool(rnd.getrandbits(1)), "f": f, "st": st, "x": x, "y": y})
+    return out
+
+
+def acc_check_table(ctx, tpath, name, nproc=4):
+    """TLC validates the table in nproc parallel pieces (one initial state per row; their computation is sequential in TLC)"""
+    rows = [l for l in open(tpath).read().splitlines() if l.strip()]
+    pieces = [rows[i::nproc] for i in range(nproc) if rows[i::nproc]]
+
+    def one(item):
+        i, piece = item
+        pp = "%s.part%d" % (tpath, i)
+        write_lines(pp, piece)
+        r = core.tlc(ctx, "ComplexAccCheck", "ComplexAccCheck.cfg", name="%s-%d" % (name, i), env={"TABLE": pp}, extra=["-continue"], workers=1,
+                     timeout=3000, heap="3g")
+        bad, adv, echo = emitted(r["out"], "@BAD@"), emitted(r["out"], "@ADV@"), emitted(r["out"], "@ECHO@")
+        if echo:
+            raise MachineryError("ComplexAccCheck: the harness did not evaluate the case the specification describes (or the case is outside its domain): %s" % json.dumps(echo[0])[:800])
+        if r["distinct"] != len(piece):
+            raise MachineryError("ComplexAccCheck visited %d of %d rows, see %s" % (r["distinct"], len(piece), r["outfile"]))
+        if bool(r["violated"]) != bool(bad):
+            raise MachineryError("ComplexAccCheck: invariant verdict and reported rows disagree, see %s" % r["outfile"])
+        r["out"] = ""
+        return bad, adv
+
+    bad, adv = [], []
+    with ThreadPoolExecutor(max_workers=nproc) as ex:
+        for b, a in ex.map(one, enumerate(pieces)):
+            bad += b
+            adv += a
+    return bad, adv, len(rows)
+
+
+def acc_text(d):
+    if d["k"] != "num":
+        return ("-" if d["s"] else "+") + {"zero": "0", "inf": "inf", "nan": "nan"}[d["k"]]
+    N = sum(l << (12 * j) for j, l in enumerate(d["n"]))
+    return "%s0x%x*2^%d" % ("-" if d["s"] else "", N, d["e"])
+
+
+def describe_acc(b):
+    k = b["key"]
+    opnd = lambda v: "(%s, %s)" % (acc_text(v[0]), acc_text(v[1]))
+    return "accuracy on general operands (ComplexAcc.tla), %s ieee_compliant=%s: %s with xcomplex operand %s and other operand %s%s: %s" % (
+        k["t"], str(k["b"]).lower(), k["f"], opnd(k["x"]), opnd(k["y"]) if k["f"] in ("add", "sub", "mul", "div") else acc_text(k["y"][0]),
+        "" if k["st"] == "T" else " (scalar of C++ type %s)" % k["st"],
+        "; ".join("variants %s break '%s' (bounds: + - componentwise 2u, * / normwise 16u, real operand componentwise 16u): got %s" % (x["v"], x["why"], x["got"][:500]) for x in b["fails"])[:1800])
+
+
+def acc_stage(ctx, drv, cases):
+    d = ctx.sub("Acc")
+    cpath, tpath = os.path.join(d, "cases.ndjson"), os.path.join(d, "table.ndjson")
+    write_lines(cpath, cases)
+    ncrash = run_table(ctx, [drv, "acc"], cpath, tpath, "AccCase")
+    bad, adv, nrows = acc_check_table(ctx, tpath, "Acc-table")
+    ctx.cov["evaluations"] += nrows
+    ctx.cov["transitions"] += nrows
+    ctx.cov["states"] += nrows
+    ctx.notes["Acc_cases_evaluated"] = nrows
+    ctx.notes["Acc_cases_by_form"] = {f: sum(1 for c in cases if c["f"] == f) for f in ACC_FORMS}
+    ctx.log("Acc: %d general finite operand cases (TLC-enumerated boundary grid + seeded random) evaluated on the real objects in every operator variant; "
+            "exact-integer error bounds and bit-identity across closure kinds validated by TLC; %d rejected, %d with a sign of zero outside the pinned set%s" % (
+                nrows, len(bad), len(adv), ", %d crashes" % ncrash if ncrash else ""))
+    if adv:
+        forms = sorted({a["key"]["f"] for a in adv})
+        a0 = adv[0]
+        ctx.drift.append("ADVISORY C10 signs of zero: %d of %d + - * / results have a zero whose sign is not the one IEEE 754 arithmetic on the components (C99 G.5) gives "
+                         "(forms %s); e.g. %s ieee=%s %s x=(%s, %s) y=(%s, %s): %s" % (len(adv), nrows, ",".join(forms), a0["key"]["t"], a0["key"]["b"], a0["key"]["f"],
+                                                                                    acc_text(a0["key"]["x"][0]), acc_text(a0["key"]["x"][1]), acc_text(a0["key"]["y"][0]),
+                                                                                    acc_text(a0["key"]["y"][1]), json.dumps(a0["devs"])[:400]))
+        ctx.notes["Acc_zero_sign_advisories"] = len(adv)
+    if bad:
+        c2, t2 = os.path.join(d, "again.ndjson"), os.path.join(d, "again.table")
+        write_lines(c2, [b["key"] for b in bad[:40]])
+        run_table(ctx, [drv, "acc"], c2, t2, "AccCase")
+        again = {json.dumps(b["key"], sort_keys=True) for b in acc_check_table(ctx, t2, "Acc-table-again")[0]}
+        for b in bad[:8]:
+            if json.dumps(b["key"], sort_keys=True) not in again:
+                raise MachineryError("non-reproducible accuracy rejection %s" % json.dumps(b["key"]))
+            ctx.violation(describe_acc(b), replay_lines=[{"op": "AccCase", "a": b["key"], "build": ""}])
+        if len(bad) > 8:
+            ctx.log("... and %d more rejected Acc rows" % (len(bad) - 8))
+    return bad
+
+
 # ------------------------------------------------------------------ part A: register machine
 def edge_script(edges, t, b, share=None):
     """One execution per initial state: Reset, Load, then every call out of that state; observers first,
@@ -730,7 +899,7 @@ def register_machine(ctx, q, edges_k, edges_v, simdir):
 
 # ------------------------------------------------------------------ replay
 def build_driver(ctx, part, build=""):
-    """the driver part (1 Annex G, 2 exact, 3 fn) in the build flavour a violation was found with"""
+    """the driver part (1 Annex G, 2 exact, 3 fn, 4 acc) in the build flavour a violation was found with"""
     out = os.path.join(ctx.work, "driver%d%s" % (part, build))
     src = os.path.join(HDIR, "driver.cpp")
     if build == "native":
@@ -787,6 +956,20 @@ def replay(ctx, path):
             return 0
         print("VIOLATION property=C10 replay=%s" % path)
         print("  " + (json.dumps(hit[0])[:1500] if hit else ctx.violations[-1][1][:1500]))
+        return 1
+    if first["op"] == "AccCase":
+        drv = build_driver(ctx, 4, "")
+        d = ctx.sub("replay")
+        cpath, tpath = os.path.join(d, "case.ndjson"), os.path.join(d, "case.table")
+        write_lines(cpath, [first["a"]])
+        n0 = len(ctx.violations)
+        run_table(ctx, [drv, "acc"], cpath, tpath, "AccCase")
+        bad = acc_check_table(ctx, tpath, "replay-acc", nproc=1)[0] if len(ctx.violations) == n0 else []
+        if not bad and len(ctx.violations) == n0:
+            print("replay accepted: the case now conforms to the specification")
+            return 0
+        print("VIOLATION property=C10 replay=%s" % path)
+        print("  " + (json.dumps(bad[0])[:1500] if bad else ctx.violations[-1][1][:1500]))
         return 1
     if first["op"] in ("ExtremeCase", "ExactCase", "FnCase"):
         part, mode, module = {"ExtremeCase": (1, "extreme", None), "ExactCase": (2, "exact", "ComplexExactCheck"), "FnCase": (3, "fn", "ComplexFnCheck")}[first["op"]]
@@ -911,6 +1094,9 @@ def run(ctx):
     fsim = pool.submit(simulate, ctx, q)
     fexact = pool.submit(enumerate_cases, ctx, "ComplexExactMC", "ComplexExact_quick.cfg" if q else "ComplexExact_thorough.cfg", "exact-enumerate")
     ffn = pool.submit(enumerate_cases, ctx, "ComplexFnMC", "ComplexFn_quick.cfg" if q else "ComplexFn_thorough.cfg", "fn-enumerate")
+    facclaws = pool.submit(core.tlc_model_check, ctx, "ComplexAccMC", "ComplexAcc_laws.cfg",
+                           "limb arithmetic of ComplexAcc.tla against TLC's integers and polynomial identities; the error bounds on hand-computed examples", workers=1)
+    facc = pool.submit(enumerate_cases, ctx, "ComplexAccMC", "ComplexAcc_quick.cfg" if q else "ComplexAcc_thorough.cfg", "acc-enumerate")
 
     rows, badrows = ftypes.result()
     ctx.log("type table: %d rows enumerated by TLC, checked as static_asserts for float, double, long double; %d fail" % (len(rows), len(badrows)))
@@ -936,6 +1122,15 @@ def run(ctx):
         ctx.notes["harnesses_not_built"] = [j["name"] for j in notbuilt]
     cases, edges_k, edges_v, simdir = fcases.result(), fek.result(), fev.result(), fsim.result()
     ecases, fcs = fexact.result(), ffn.result()
+    r = facclaws.result()
+    if r["violated"]:
+        raise MachineryError("ComplexAcc.tla violates its own laws %s (oracle bug), see %s" % (r["violated"], r["outfile"]))
+    agrid = facc.result()
+    ctx.notes["acc_grid_cases_enumerated_by_tlc"] = len(agrid)
+    # TLC's exact integer arithmetic costs ~50 ms per row: a seeded sample of the enumerated grid plus as many seeded random cases
+    nacc = 500 if q else 3000
+    rnd = random.Random(ctx.seed * 31337 + 7)
+    acases = rnd.sample(agrid, min(nacc, len(agrid))) + acc_random_cases(ctx.seed, nacc)
     ctx.notes["extreme_cases_enumerated_by_tlc"] = len(cases)
     ctx.notes["exact_cases_enumerated_by_tlc"] = len(ecases)
     ctx.notes["fn_cases_enumerated_by_tlc"] = len(fcs)
@@ -953,6 +1148,9 @@ def run(ctx):
         futs.append(pool.submit(table_stage, ctx, "Exact", os.path.join(ctx.work, "driver2"), "exact", sample_cases(ecases, ctx.seed, q), "ComplexExactCheck", describe_exact))
     if on("fn") and built.get("driver3"):
         futs.append(pool.submit(table_stage, ctx, "Fn", os.path.join(ctx.work, "driver3"), "fn", sample_cases(fcs, ctx.seed, q), "ComplexFnCheck", describe_fn))
+    # ---- E. accuracy on general finite operands
+    if on("acc") and built.get("driver4"):
+        futs.append(pool.submit(acc_stage, ctx, os.path.join(ctx.work, "driver4"), acases))
     # ---- B. Annex G class tables (C->S) and the extreme-divisor clause
     if on("annexg") and built.get("driver1"):
         drv = os.path.join(ctx.work, "driver1")
@@ -983,7 +1181,8 @@ def run(ctx):
     # distinct cases: TLC-deduplicated L1 transitions (state, call, arguments), TLC-enumerated extreme-divisor, exact-arithmetic and
     # function cases and the 6174 distinct Annex G class rows; representatives / instantiations / operator variants are not counted again
     ctx.cov["distinct_nontrivial"] = (ctx.notes.get("s2c_transitions_enumerated", 0) + ctx.notes.get("extreme_cases_enumerated_by_tlc", 0)
-                                      + ctx.notes.get("Exact_cases_evaluated", 0) + ctx.notes.get("Fn_cases_evaluated", 0) + 6174)
+                                      + ctx.notes.get("Exact_cases_evaluated", 0) + ctx.notes.get("Fn_cases_evaluated", 0)
+                                      + ctx.notes.get("Acc_cases_evaluated", 0) + 6174)
     return core.finish(
         ctx, "exploration",
         rule="distinct_nontrivial = distinct TLC-enumerated L1 transitions + distinct extreme-divisor, exact-arithmetic and function cases + 6174 Annex G class rows "
@@ -997,17 +1196,23 @@ def run(ctx):
              "representable quotients (divisor scale 2^k up to the ends of the normal range). (C) exact dyadic arithmetic n*2^e: 12 operator forms x 6 scalar C++ types x "
              "float/double/long double x both flags x 8 operator variants, operands moderate / subnormal / near the ends of the range%s. (D) ==, !=, unary -, +, conj, "
              "real, imag defined by IEEE 754 and 24 forwarded functions equal bit-for-bit to <complex>'s on NaN / inf / signed zero / subnormal / huge / dyadic parts%s. "
+             "(E) accuracy on general finite well-scaled operands (ComplexAcc.tla): full-width 24/53-bit significands, leading-bit exponents in -30..30 (float) / -250..250 (double), "
+             "components within 2^64 of each other, zeros of both signs; 12 operator forms x 6 scalar C++ types x both flags x 8 operator variants; %d cases"
+             " (a seeded sample of the TLC-enumerated boundary grid + as many seeded random cases; TLC's exact limb arithmetic costs ~50 ms per case). "
              "(0) 982-row type table and %d compile-probe statements. A case is one operator or function evaluation on the real objects." % (
                  "{-1,0,2}" if q else "{-2,-1,0,3}", "-2..2" if q else "-3..3", 30 if q else 400, "float/double" if q else "float/double/long double",
                  " (a seeded 60 % of the enumerated cases)" if q else "; a seeded 30 % also with g++ -O2 -march=native and with clang++ -O2",
-                 " (float, double; a seeded 60 %)" if q else " (also long double)", ctx.notes.get("compile_probe_statements", 0)),
-        assumptions=["accuracy ('within a few units of rounding') on general finite doubles is NOT checked: only operands whose exact result is "
-                     "representable (small Gaussian integers; dyadic rationals n*2^e with |n| <= 7 and all intermediates representable; powers of two for the "
-                     "extreme-divisor clause), where correct means equal - except a quotient by a divisor whose squared modulus is not a power of two, accepted within 4 ulp",
+                 " (float, double; a seeded 60 %)" if q else " (also long double)", ctx.notes.get("Acc_cases_evaluated", 0), ctx.notes.get("compile_probe_statements", 0)),
+        assumptions=["accuracy ('within a few units of rounding') is read as: + - componentwise within 2u, * / of two complex numbers normwise within 16u, * / with a real operand "
+                     "componentwise within 16u (u = 2^-24 / 2^-53), decided exactly by TLC on a SAMPLE of general operands (part E: well-scaled = leading-bit exponents within "
+                     "+-30 / +-250 and components within 2^64 of each other; scalars of another C++ type are values of the element type too); parts A, C and the extreme-divisor "
+                     "clause demand equality where the exact result is representable (a quotient by a divisor whose squared modulus is not a power of two: 4 ulp)",
                      "division in the register machine only by divisors whose squared modulus is a power of two (every algorithm, also reciprocal multiplication, is exact there); "
                      "other exact quotients are in part C with the 4 ulp tolerance",
                      "'finite operands never yield NaN' is read with the property's own definition: a result with an infinite part is an infinity, not a NaN",
-                     "the sign of zero results of + - * / and NaN payloads are not compared (signs of zeros ARE compared for unary -, +, conj, real, imag and every forwarded function); "
+                     "the sign of zero results of + - * / is compared between closure kinds (violation) and with the sign IEEE 754 arithmetic on the components / C99 G.5 gives "
+                     "(ADVISORY only: the statement says 'mathematically correct'; both answers are allowed where promoting the real operand gives the other one; complex quotients open); "
+                     "NaN payloads are not compared (signs of zeros ARE compared for unary -, +, conj, real, imag and every forwarded function); "
                      "the non-ieee path is not checked on special values (the property says nothing)",
                      "configurations: T in {float,double} both tiers, long double thorough only (outside the property's quantifier, like xcomplex<int>, which is not exercised); "
                      "closure kinds T / T& / const T& and ieee_compliant false/true everywhere; compilers: g++ -O0/-O1 with AddressSanitizer both tiers, g++ -O2 -march=native -DNDEBUG and "
